@@ -33,10 +33,16 @@ class NotifyServer:
                     len(self.connections) - 1,
                 )
 
-                for peer in self.connections.values():
+                # iterate over a snapshot: peers may connect or leave while we await drain()
+                for peer in list(self.connections.values()):
                     if peer != writer:
-                        peer.write(data)
-                        await peer.drain()
+                        try:
+                            peer.write(data)
+                            await peer.drain()
+                        except OSError:
+                            # a broken peer must not stop this sender's ids
+                            # from reaching the remaining peers
+                            self.log.debug("could not notify a peer")
             except asyncio.exceptions.CancelledError:
                 writer.close()
                 break
